@@ -134,7 +134,7 @@ def run(tier, seed):
     }
     return acc, cov, ["states are merged by structural fingerprint (declaration reads only props "
                       "and arguments; hidden state is hunted by C07)",
-                      "Python arity errors, optional(...) and nan are outside the alphabet"]
+                      "Python arity errors and optional(...) are outside the alphabet; nan is a value, not a bound"]
 
 
 def _replay_inner(case):
